@@ -87,9 +87,19 @@ def forwarded_types(cx):
     for t in send_templates(cx.prog):
         if t.obj[0] == "param" and t.types() is None:
             gl = cx.guard_lits(t.site)
+            hit = False
             for l in gl:
                 if l[0] == "in" and is_f(l[1], "Message.msg_type") and l[1][1] == t.obj:
                     out |= set(l[2])
+                    hit = True
+            if not hit:
+                # no single test dominates the send (the types were classified one by one into a shared arm): the
+                # types that can reach it along some path
+                allv = cx.facts.variants(MT)
+                if allv:
+                    pv = cx.pg(t.fn).possible_values(t.site.at, lambda e, o=t.obj: is_f(e, "Message.msg_type") and e[1] == o, allv)
+                    if pv and len(pv) < len(allv):
+                        out |= set(pv)
     return out
 
 
